@@ -891,10 +891,55 @@ def gen_tables(repo):
     out.append('end Flac.Gen')
     return '\n'.join(out) + '\n'
 
+def gen_encconst(repo):
+    src = strip_comments(open(os.path.join(repo, 'src/encode.rs')).read())
+    n = ' '.join(src.split())
+    out = ['/- GENERATED by tools/translate.py from src/encode.rs — do not edit -/', 'namespace Flac.Gen', '']
+    def need(pat, what):
+        m = re.search(pat, n)
+        if not m:
+            raise ExtractError(f'{what}: expected shape not found')
+        return m
+    m = need(r'pub fn block_size\(self, block_size: u16\) -> Result<Self, OptionsError> \{ match block_size \{ 0\.\.(\d+) => Err\(OptionsError::InvalidBlockSize\), \1\.\. => Ok', 'Options::block_size')
+    out.append(f'/-- `Options::block_size`: sizes below this are refused -/\ndef optMinBlockSize : Nat := {m.group(1)}\n')
+    m = need(r'\.filter\(\|o\| \*o <= NonZero::new\((\d+)\)\.unwrap\(\)\) \.ok_or\(OptionsError::InvalidLpcOrder\)', 'Options::max_lpc_order')
+    out.append(f'/-- `Options::max_lpc_order`: orders 1..=this are accepted (and `None`) -/\ndef optMaxLpcOrder : Nat := {m.group(1)}\n')
+    m = need(r'match max_partition_order \{ 0\.\.=(\d+) => Ok\(Self', 'Options::max_partition_order')
+    out.append(f'def optMaxPartitionOrder : Nat := {m.group(1)}\n')
+    m = need(r'sample_rate: \(0\.\.(\d+)\) \.contains\(&sample_rate\) \.then_some\(sample_rate\) \.ok_or\(Error::InvalidSampleRate\)\?', 'Encoder::new sample rate')
+    out.append(f'/-- `Encoder::new`: rates below this are accepted -/\ndef encRateLimit : Nat := {m.group(1)}\n')
+    m = need(r'channels: \((\d+)\.\.=(\d+)\) \.contains\(&channels\)', 'Encoder::new channels')
+    out.append(f'def encMinChannels : Nat := {m.group(1)}\ndef encMaxChannels : Nat := {m.group(2)}\n')
+    m = need(r'const MAX_SAMPLES: u64 = ([0-9_]+);', 'Encoder::MAX_SAMPLES')
+    out.append(f'def encMaxSamples : Nat := {num(m.group(1))}\n')
+    need(r'total_samples @ Some\(samples\) => match samples\.get\(\) \{ 0\.\.Self::MAX_SAMPLES => total_samples, _ => return Err\(Error::ExcessiveTotalSamples\), \}', 'Encoder::new total')
+    need(r'if let Some\(total_samples\) = self\.blocks\.streaminfo\(\)\.total_samples && self\.samples_written > total_samples\.get\(\) \{ return Err\(Error::ExcessiveTotalSamples\); \}', 'Encoder::encode over-fill check')
+    need(r'Some\(expected\) => \{ if expected\.get\(\) != self\.samples_written \{ return Err\(Error::SampleCountMismatch\); \} \}', 'Encoder::finalize under-fill check')
+    need(r'\*expected = Some\(NonZero::new\(self\.samples_written\)\.ok_or\(Error::NoSamples\)\?\)', 'Encoder::finalize recorded count')
+    m = need(r'const MAX_LPC_COEFFS: usize = (\d+);', 'MAX_LPC_COEFFS')
+    out.append(f'def encMaxLpcCoeffs : Nat := {m.group(1)}\n')
+    m = need(r'debug_assert!\(usize::from\(max_lpc_order\.get\(\)\) (<|<=) MAX_LPC_COEFFS\);', 'autocorrelate debug assertion')
+    out.append(f'/-- `autocorrelate`: `debug_assert!(max_lpc_order {m.group(1)} MAX_LPC_COEFFS)` -/\n'
+               f'def encAutocorrelateAssert (order : Nat) : Bool := decide (order {m.group(1)} encMaxLpcCoeffs)\n')
+    zero_guard = 'if rhs == N::default() { return None; }' in n
+    need(r'fn exact_div<N>\(n: N, rhs: N\) -> Option<N>', 'exact_div')
+    out.append(f'/-- does `exact_div` refuse a zero divisor (instead of dividing by it)? -/\ndef encExactDivGuardsZero : Bool := {"true" if zero_guard else "false"}\n')
+    meta = ' '.join(strip_comments(open(os.path.join(repo, 'src/metadata/mod.rs')).read()).split())
+    if 'w.write::<5, u32>(u32::from(self.bits_per_sample) - 1)?;' in meta:
+        d1 = 'true'
+    elif 'self.bits_per_sample .checked_sub::<0b11111>(1) .unwrap() .count(),' in meta:
+        d1 = 'false'
+    else:
+        raise ExtractError('ToBitStream for Streaminfo: bits-per-sample field changed shape')
+    out.append(f'/-- can `ToBitStream for Streaminfo` write a 1-bit depth (false = it unwraps `checked_sub(1)` of a signed bit count)? -/\ndef metaDepthOneWritable : Bool := {d1}\n')
+    out.append('end Flac.Gen')
+    return '\n'.join(out) + '\n'
+
 GENERATORS = [
     ('Crc.lean', 'crc.rs CRC tables and update', gen_crc),
     ('Tables.lean', 'stream.rs header code tables', gen_tables),
     ('Kernels.lean', 'decode.rs / encode.rs arithmetic kernels', gen_kernels),
+    ('EncConst.lean', 'encode.rs option ranges, limits and the declared-length checks', gen_encconst),
 ]
 
 def main():
